@@ -192,6 +192,7 @@ def satisfiable(f):
 
 def depends_on(f, atom_text):
     """Does the truth of f depend on atom (semantically)?"""
+    atom_text = _canon(atom_text)
     al = atoms(f)
     if atom_text not in al:
         return False
